@@ -391,11 +391,20 @@ def run(chk, n_asts, maxdepth, vm_n, nonconst_n):
         if len(seen_ast) > nonconst_n:
             break
         sh, ast, subs, reqs, text = case_parts(c)
+        # the universe: the case's own rules/requests plus fresh ones of the same shape
+        urng = rng.__class__(len(seen_ast))
+        gs = Gen(urng, sh, False, c["user_fns"])
+        urules, usubs = list(c["rules"]), list(subs)
+        for _ in range(3):
+            r_, sb_ = gen_rule(urng, sh, lambda: gs.expr(1))
+            urules.append(r_)
+            usubs.append(sb_)
+        ureqs = reqs + [gen_request(urng, sh) for _ in range(4)]
         for sc in sub_conditions(ast):
             oid = len(owners)
             owners.append(0)
-            for r, sb in zip(c["rules"], subs):
-                for q in reqs:
+            for r, sb in zip(urules, usubs):
+                for q in ureqs:
                     qs.append((oid, spec_req(0, sh, sc, [r], [sb], c["grouping"], c["user_fns"], q)))
     reps = chk.oracle.query([q for _, q in qs])
     seen_vals = {}
